@@ -39,6 +39,9 @@ pub fn scenarios(prop: &str, tier: &str) -> Vec<Scenario> {
         out.extend(crate::catalog::zero_weight_scenarios("C01", &Pk::ALL));
     }
     if prop == "C05" {
+        out.extend(crate::catalog::heavy_weight_scenarios("C05", &Pk::ALL));
+    }
+    if prop == "C05" {
         // the bounded spaces of C04 (angular intervals wider than pi, cones, compounds): whatever a
         // planner does with a steered state that leaves the bounds must not lengthen the edge
         for mut sc in scenarios_c04(tier) {
